@@ -9,6 +9,7 @@ CHECKS["C05"] = dict(
     assumptions=COMMON_ASSUME + [
         "probes of piecewise rules are placed at (k + 0.37) 2^-13 (3^-9 grid for the piecewise-constant rule): at least 1.8e-5 from every kink candidate of levels <= 8, finite-difference stencil +-2e-5",
         "tolerances: 1e-6 relative to max(1, conditioning of evaluate, |gradient|) for finite differences; 1e-9 (wavelets 1e-6) relative to the conditioning sum |w_i v_i| for the exact identities",
+        "every configuration runs in a child process under a watchdog of 90 s of CPU time (slowest configuration, the 59049-point 1-D Fourier grid: ~19 s); an expiry counts as a hang only when the configuration, re-run alone with 360 s of CPU time, expires again",
         "clenshaw-curtis-zero is not used for the analytic oracle (its declared space is the subject of C03/F15); monomials above degree 40 are left out of the loaded member",
     ],
     jobs=[dict(harness="scan_deriv", variant="asan", args=[], quick=["--tier", "quick"], thorough=["--tier", "thorough"],
